@@ -60,21 +60,21 @@ Inductive term := TComma | TNewline | TEof.
 
 Fixpoint unquoted (s acc : list Z) : list Z * term * list Z :=
   match s with
-  | [] => (rev acc, TEof, [])
-  | c :: tl => if c =? 44 then (rev acc, TComma, tl)
-               else if c =? 10 then (rev acc, TNewline, tl)
+  | [] => (rev' acc, TEof, [])
+  | c :: tl => if c =? 44 then (rev' acc, TComma, tl)
+               else if c =? 10 then (rev' acc, TNewline, tl)
                else unquoted tl (c :: acc)
   end.
 
 (* inside a quoted field; [pending] = a quote was just seen *)
 Fixpoint quoted (s acc : list Z) (pending : bool) : option (list Z * term * list Z) :=
   match s with
-  | [] => if pending then Some (rev acc, TEof, []) else None          (* unterminated *)
+  | [] => if pending then Some (rev' acc, TEof, []) else None          (* unterminated *)
   | c :: tl =>
       if pending then
         if c =? 34 then quoted tl (34 :: acc) false                    (* "" is a quote *)
-        else if c =? 44 then Some (rev acc, TComma, tl)
-        else if c =? 10 then Some (rev acc, TNewline, tl)
+        else if c =? 44 then Some (rev' acc, TComma, tl)
+        else if c =? 10 then Some (rev' acc, TNewline, tl)
         else None                                                      (* text after the closing quote *)
       else if c =? 34 then quoted tl acc true
       else quoted tl (c :: acc) false
@@ -93,7 +93,7 @@ Fixpoint read_record (fuel : nat) (s : list Z) (acc : list (list Z)) : option (l
       match read_field s with
       | None => None
       | Some (fld, TComma, rest) => read_record f rest (fld :: acc)
-      | Some (fld, _, rest) => Some (rev (fld :: acc), rest)
+      | Some (fld, _, rest) => Some (rev' (fld :: acc), rest)
       end
   end.
 
